@@ -3089,6 +3089,18 @@ class Set(Collection):
                 if not is_reverse_call:
                     for undo_func in reversed(undo_funcs): undo_func()
                 raise
+        if is_reverse_call:
+            # the caller can still fail and run undo_funcs: the changes made below have to be undone as well
+            modified_objects = cache.modified_collections[attr]
+            saved = (set(setdata), setdata.count,
+                     None if setdata.added is None else set(setdata.added),
+                     None if setdata.removed is None else set(setdata.removed), obj in modified_objects)
+            def undo_func():
+                prev_items, setdata.count, setdata.added, setdata.removed, was_modified = saved
+                setdata.clear()
+                setdata.update(prev_items)
+                if not was_modified: modified_objects.discard(obj)
+            undo_funcs.append(undo_func)
         setdata.clear()
         setdata |= new_items
         if setdata.count is not None: setdata.count = len(new_items)
